@@ -55,6 +55,33 @@ def run(chk):
             found += chk.violation('batching', fails[0], {'kind': 'batches', 'case': dict(case, script=comp)})
             if found > 2:
                 break
+    # alignments of fixed-size batches over whole runs (a value that is stale only inside a batch shows only at particular
+    # offsets and only on runs where the estimate M grows a little late in the run: many moderately long runs)
+    for _ in range(300 if thorough else 70):
+        n = rng.choice([1, 1, 2])
+        lo, hi = H.random_box(rng, n)
+        case = {'n': n, 'lo': lo, 'hi': hi, 'objective': H.random_objective(rng, n, kinds=('multi', 'prod', 'sin'), lo=lo, hi=hi),
+                'r': round(rng.uniform(2, 3.5), 2), 'eps': rng.choice([0.0002, 0.0005, 0.002]) if n == 1 else rng.choice([0.01, 0.005]), 'iters': 400}
+        base = O.trajectory(case, [('solve',)])[0]
+        nb = len(base)
+        hit = False
+        for b in (3, 8):
+            for off in range(0, b, 2):
+                comp = ([off] if off else []) + [b] * ((nb - 1 - off) // b)
+                if not comp:
+                    continue
+                tr = O.trajectory(case, [('iter', k) for k in comp] + [('solve',)])[0]
+                chk.evaluations += 1
+                if tr != base:
+                    i = next((j for j, (u, v) in enumerate(zip(tr, base)) if u != v), min(len(tr), len(base)))
+                    found += chk.violation('batching', 'batches %s.. then Solve: trial sequence differs from the plain Solve run at trial %d (%d vs %d trials)'
+                                           % (comp[:3], i + 1, len(tr), len(base)), {'kind': 'batches', 'case': dict(case, script=comp)})
+                    hit = True
+                    break
+            if hit:
+                break
+        if found > 1:
+            break
     S.report_corr(chk, bad, errors, found)
 
 
